@@ -72,7 +72,7 @@ impl Prop for OrderProp {
         "Every multiset of 2..k union/insert operations over the stated alphabets is executed from the empty e-graph in EVERY distinct permutation and EVERY orientation pattern of its unions (3 operations: up to 48 executions, 4: up to 384), each in a fresh thread. All executions of one multiset must give the same order-free observation: every eq answer over all tracked (sub)terms x all relative namings, the number of live classes, and per tracked term the number of non-redundant slots and the number of symmetries. A disagreement is reported with both orders. Non-trivial = execution whose last operation changed the e-graph.".into()
     }
     fn assumptions(&self) -> Vec<String> {
-        vec!["executions that panic are excluded from the comparison and counted as aborted (owned by C08)".into()]
+        vec!["executions that panic are excluded from the comparison and reported as a no-answer failure (the same defect is also reported by C08 where its exploration reaches it)".into()]
     }
     fn describe(&self, tier: Tier, _cfg: &str, seg: usize, idx: u64) -> Value {
         let segs = self.segs(tier);
